@@ -105,7 +105,7 @@ type PkgContracts struct {
 	clauseSeq int
 }
 
-var kwRe = regexp.MustCompile(`^(import|pure|rec|opaque|abstract|method|callee|func|assume|interface|functype|captures|axiom|globalinv|requires|ensures|assigns|decreases|loop|invariant|lemma|props|ghost|let|flag|refines|var)\b`)
+var kwRe = regexp.MustCompile(`^(import|pure|rec|opaque|abstract|method|callee|closure|func|assume|interface|functype|captures|axiom|globalinv|requires|ensures|assigns|decreases|loop|invariant|lemma|props|ghost|let|flag|refines|var)\b`)
 
 func parseContractFile(path, pkgPath string) (*PkgContracts, error) {
 	b, err := os.ReadFile(path)
@@ -262,6 +262,20 @@ func parseContractFile(path, pkgPath string) (*PkgContracts, error) {
 			}
 			c.Target = cur.Target + "#" + c.Name
 			c.Parent = cur
+			pc.Contracts = append(pc.Contracts, c)
+			cur, curLoop = c, nil
+		case "closure":
+			// closure <key>$N(params) (results): contract of a function literal, keyed by enclosing function and ordinal
+			m := regexp.MustCompile(`^(.*\$\d+)\s*(\(.*)$`).FindStringSubmatch(rest)
+			if m == nil {
+				return nil, fmt.Errorf("%s:%d: bad closure header", path, l.line)
+			}
+			c := &Contract{Kind: "func", PkgPath: pkgPath, PkgDir: pc.Dir, Loops: map[int]*LoopContract{}, Flags: map[string]bool{}, File: path, Line: l.line, Props: defProps}
+			if err := parseHeader(c, "zzclosure"+m[2]); err != nil {
+				return nil, fmt.Errorf("%s:%d: %v", path, l.line, err)
+			}
+			c.Name = m[1]
+			c.Target = pkgPath + "." + m[1]
 			pc.Contracts = append(pc.Contracts, c)
 			cur, curLoop = c, nil
 		case "func", "assume", "interface", "functype", "lemma":
@@ -445,6 +459,16 @@ func parseHeader(c *Contract, r string) error {
 		}
 	case "assume", "interface", "functype":
 		c.Target = name
+		if c.Kind == "assume" && c.Recv != nil {
+			// method of an external type: key "<import path>.(*T).Name"
+			rt := c.Recv.Type
+			ptr := ""
+			if strings.HasPrefix(rt, "*") {
+				ptr = "*"
+				rt = rt[1:]
+			}
+			c.Target = "(" + ptr + rt + ")." + name // package alias resolved in generate()
+		}
 	case "lemma":
 		c.Target = c.PkgPath + ".lemma." + name
 	}
@@ -621,8 +645,14 @@ func rewriteInside(s string) string {
 			}
 			inner := s[i+1 : j]
 			out.WriteByte(c)
-			// split by top-level commas
+			// split by top-level commas (a quantifier's binder list is not an argument list)
 			parts := splitTopLevel(inner, ',')
+			for k := 0; k < len(parts); k++ {
+				if quantRe.MatchString(strings.TrimSpace(parts[k])) || indexTopLevelQuant(parts[k]) >= 0 {
+					parts = append(parts[:k], strings.Join(parts[k:], ","))
+					break
+				}
+			}
 			for k, p := range parts {
 				if k > 0 {
 					out.WriteString(", ")
@@ -699,11 +729,13 @@ func strof(b []byte) string { return "" }
 func same(a, b interface{}) bool { return true }
 func unchanged(l ...interface{}) bool { return true }
 func call(f interface{}, args ...interface{}) interface{} { return nil }
+func callb(f interface{}, args ...interface{}) bool { return true }
 func visited(k interface{}) bool { return true }
+func fields[T any]() interface{} { return nil }
 func pointee(x interface{}) interface{} { return nil }
 func itercount() int { return 0 }
 type rangeindex = int
-var _ = []interface{}{forall, exists, implies, fresh, cells, mapcells, locs, nothing, dyntype, allocated, tuple, strof, same, unchanged, call, visited, pointee}
+var _ = []interface{}{forall, exists, implies, fresh, cells, mapcells, locs, nothing, dyntype, allocated, tuple, strof, same, unchanged, call, callb, visited, pointee}
 `
 
 func (c *Contract) allBinders() []Binder {
@@ -777,6 +809,21 @@ func (pc *PkgContracts) emitClause(c *Contract, cl *Clause, extra []Binder) {
 }
 
 func (pc *PkgContracts) generate() {
+	for _, c := range pc.Contracts {
+		if c.Kind == "assume" && c.Recv != nil && strings.HasPrefix(c.Target, "(") {
+			// (*regexp.Regexp).M  ->  regexp.(*Regexp).M with the import path of the alias
+			m := regexp.MustCompile(`^\((\*?)([A-Za-z_0-9]+)\.([A-Za-z_0-9]+)\)\.(.*)$`).FindStringSubmatch(c.Target)
+			if m != nil {
+				path := m[2]
+				for _, imp := range pc.Imports {
+					if imp == m[2] || strings.HasSuffix(imp, "/"+m[2]) {
+						path = imp
+					}
+				}
+				c.Target = path + ".(" + m[1] + m[3] + ")." + m[4]
+			}
+		}
+	}
 	body := pc.Synth
 	pc.Synth = ""
 	for _, c := range pc.Contracts {
